@@ -306,7 +306,9 @@ func (pi *pendingWritesIterator) Rewind() {
 // Seek positions the buffered-write iterator at the first entry matching key order.
 func (pi *pendingWritesIterator) Seek(key []byte) {
 	pi.nextIdx = sort.Search(len(pi.entries), func(idx int) bool {
-		cmp := bytes.Compare(pi.entries[idx].Key, key)
+		// Internal keys order by (user key, version); comparing the raw bytes would let the
+		// timestamp suffix of a short key outrank the next byte of a longer key.
+		cmp := utils.CompareKeys(pi.entries[idx].Key, key)
 		if !pi.reversed {
 			return cmp >= 0
 		}
@@ -354,7 +356,7 @@ func (txn *Txn) newPendingWritesIterator(reversed bool) *pendingWritesIterator {
 		entries = append(entries, &dup)
 	}
 	sort.Slice(entries, func(i, j int) bool {
-		cmp := bytes.Compare(entries[i].Key, entries[j].Key)
+		cmp := utils.CompareKeys(entries[i].Key, entries[j].Key)
 		if !reversed {
 			return cmp < 0
 		}
